@@ -4,6 +4,7 @@ mod conc;
 mod conn;
 mod gen;
 mod limit;
+mod mlimit;
 mod polconc;
 mod seq;
 mod watch;
@@ -14,6 +15,10 @@ use std::fs;
 fn arg<'a>(args: &'a [String], name: &str) -> Option<&'a str> {
     args.iter().position(|a| a == name).and_then(|i| args.get(i + 1)).map(|s| s.as_str())
 }
+
+/// a command of the schedule-driven profiles that has not come back after this long never will
+const DEADMAN_SECS: u64 = 30;
+const DEADMAN_REPLAY_SECS: u64 = 10;
 
 fn main() {
     // panics inside the crate under test are caught; keep them quiet
@@ -116,16 +121,23 @@ fn main() {
             let seed: u64 = arg(&args, "--seed").unwrap_or("1").parse().unwrap();
             let cases: usize = arg(&args, "--cases").unwrap_or("50").parse().unwrap();
             let flavor = arg(&args, "--flavor").unwrap_or("base").to_string();
-            let mut trace = String::new();
-            let mut obs = String::new();
-            let mut monitor = String::new();
-            let (stuck, steps) = conc::run_gen(seed, cases, &flavor, &mut trace, &mut obs, &mut monitor);
-            fs::write(arg(&args, "--trace").expect("--trace"), trace).unwrap();
-            fs::write(arg(&args, "--obs").expect("--obs"), obs).unwrap();
-            fs::write(arg(&args, "--monitor").expect("--monitor"), monitor).unwrap();
-            if let Some(p) = arg(&args, "--stats") {
-                fs::write(p, format!("{{\"conc_cases\": {}, \"conc_steps\": {}, \"stuck\": {}}}\n", cases, steps, stuck)).unwrap();
-            }
+            let tp = arg(&args, "--trace").expect("--trace").to_string();
+            let op = arg(&args, "--obs").expect("--obs").to_string();
+            let mp = arg(&args, "--monitor").expect("--monitor").to_string();
+            let sp = arg(&args, "--stats").map(|s| s.to_string());
+            let (tp2, op2, mp2) = (tp.clone(), op.clone(), mp.clone());
+            watch::deadman(std::time::Duration::from_secs(DEADMAN_SECS), tp2, op2, Some(mp2), move || {
+                let mut trace = String::new();
+                let mut obs = String::new();
+                let mut monitor = String::new();
+                let (stuck, steps) = conc::run_gen(seed, cases, &flavor, &mut trace, &mut obs, &mut monitor);
+                fs::write(&tp, trace).unwrap();
+                fs::write(&op, obs).unwrap();
+                fs::write(&mp, monitor).unwrap();
+                if let Some(p) = sp {
+                    fs::write(p, format!("{{\"conc_cases\": {}, \"conc_steps\": {}, \"stuck\": {}}}\n", cases, steps, stuck)).unwrap();
+                }
+            });
         }
         "cfg-child" => {
             cfgp::child(args[2..].to_vec());
@@ -210,6 +222,49 @@ fn main() {
                 fs::write(p, format!("{{\"sweep_cases\": {}, \"sweep_steps\": {}, \"stress_ops\": {}, \"stuck\": {}}}\n", cases, steps, ops, stuck)).unwrap();
             }
         }
+        "mlimit-gen" => {
+            // several listeners (clones of one server) over one connection limit
+            let seed: u64 = arg(&args, "--seed").unwrap_or("1").parse().unwrap();
+            let cases: usize = arg(&args, "--cases").unwrap_or("6").parse().unwrap();
+            let nevents: usize = arg(&args, "--events").unwrap_or("14").parse().unwrap();
+            let mut trace = String::new();
+            let mut obs = String::new();
+            let mut events = 0u64;
+            let mut shapes: HashMap<String, u64> = HashMap::new();
+            // independent servers: the cases run side by side
+            let mut handles = Vec::new();
+            for c in 0..cases {
+                let mut rng = gen::Rng::new(seed.wrapping_mul(3_000_017).wrapping_add(c as u64));
+                // the first cases are fixed: one slot and two listeners, then more of both
+                let (limit, k) = match c {
+                    0 => (1u32, 2usize),
+                    1 => (2, 2),
+                    2 => (1, 3),
+                    _ => (1 + rng.below(3) as u32, 2 + rng.below(2) as usize),
+                };
+                *shapes.entry(format!("mlimit_limit{}_listeners{}", limit, k)).or_insert(0) += 1;
+                let id = format!("ml-{}-{}-{}-{}", limit, k, seed, c);
+                handles.push(std::thread::spawn(move || {
+                    let mut t = String::new();
+                    let mut o = String::new();
+                    let n = mlimit::run_case(&id, limit, k, nevents, &mut rng, &mut t, &mut o);
+                    (t, o, n)
+                }));
+            }
+            for h in handles {
+                let (t, o, n) = h.join().expect("mlimit case");
+                trace.push_str(&t);
+                obs.push_str(&o);
+                events += n;
+            }
+            fs::write(arg(&args, "--trace").expect("--trace"), trace).unwrap();
+            fs::write(arg(&args, "--obs").expect("--obs"), obs).unwrap();
+            if let Some(p) = arg(&args, "--stats") {
+                let mut st: Vec<String> = shapes.iter().map(|(k, v)| format!("\"{}\": {}", k, v)).collect();
+                st.push(format!("\"mlimit_events\": {}", events));
+                fs::write(p, format!("{{{}}}\n", st.join(", "))).unwrap();
+            }
+        }
         "slow-probe" => {
             let mut monitor = String::new();
             conn::slow_reader_probe(&mut monitor);
@@ -218,40 +273,59 @@ fn main() {
         "pol-gen" => {
             let seed: u64 = arg(&args, "--seed").unwrap_or("1").parse().unwrap();
             let cases: usize = arg(&args, "--cases").unwrap_or("100").parse().unwrap();
-            let mut trace = String::new();
-            let mut obs = String::new();
-            let mut monitor = String::new();
-            let (stuck, steps) = polconc::run_cases(seed, cases, polconc::witnesses(), &mut trace, &mut obs, &mut monitor);
-            fs::write(arg(&args, "--trace").expect("--trace"), trace).unwrap();
-            fs::write(arg(&args, "--obs").expect("--obs"), obs).unwrap();
-            fs::write(arg(&args, "--monitor").expect("--monitor"), monitor).unwrap();
-            if let Some(p) = arg(&args, "--stats") {
-                fs::write(p, format!("{{\"pol_cases\": {}, \"conc_steps\": {}, \"stuck\": {}}}\n", cases + 1, steps, stuck)).unwrap();
-            }
+            let tp = arg(&args, "--trace").expect("--trace").to_string();
+            let op = arg(&args, "--obs").expect("--obs").to_string();
+            let mp = arg(&args, "--monitor").expect("--monitor").to_string();
+            let sp = arg(&args, "--stats").map(|s| s.to_string());
+            let (tp2, op2, mp2) = (tp.clone(), op.clone(), mp.clone());
+            watch::deadman(std::time::Duration::from_secs(DEADMAN_SECS), tp2, op2, Some(mp2), move || {
+                let mut trace = String::new();
+                let mut obs = String::new();
+                let mut monitor = String::new();
+                let (stuck, steps) = polconc::run_cases(seed, cases, polconc::witnesses(), &mut trace, &mut obs, &mut monitor);
+                fs::write(&tp, trace).unwrap();
+                fs::write(&op, obs).unwrap();
+                fs::write(&mp, monitor).unwrap();
+                if let Some(p) = sp {
+                    fs::write(p, format!("{{\"pol_cases\": {}, \"conc_steps\": {}, \"stuck\": {}}}\n", cases + polconc::witnesses().len(), steps, stuck)).unwrap();
+                }
+            });
         }
         "pol-replay" => {
             let text = fs::read_to_string(arg(&args, "--in").expect("--in")).unwrap();
-            let mut trace = String::new();
-            let mut obs = String::new();
-            let mut monitor = String::new();
-            polconc::run_cases(1, 0, polconc::parse_trace(&text), &mut trace, &mut obs, &mut monitor);
-            fs::write(arg(&args, "--trace").expect("--trace"), trace).unwrap();
-            fs::write(arg(&args, "--obs").expect("--obs"), obs).unwrap();
-            if let Some(m) = arg(&args, "--monitor") {
-                fs::write(m, monitor).unwrap();
-            }
+            let tp = arg(&args, "--trace").expect("--trace").to_string();
+            let op = arg(&args, "--obs").expect("--obs").to_string();
+            let mp = arg(&args, "--monitor").map(|s| s.to_string());
+            let (tp2, op2, mp2) = (tp.clone(), op.clone(), mp.clone());
+            watch::deadman(std::time::Duration::from_secs(DEADMAN_REPLAY_SECS), tp2, op2, mp2, move || {
+                let mut trace = String::new();
+                let mut obs = String::new();
+                let mut monitor = String::new();
+                polconc::run_cases(1, 0, polconc::parse_trace(&text), &mut trace, &mut obs, &mut monitor);
+                fs::write(&tp, trace).unwrap();
+                fs::write(&op, obs).unwrap();
+                if let Some(m) = mp {
+                    fs::write(m, monitor).unwrap();
+                }
+            });
         }
         "conc-replay" => {
             let text = fs::read_to_string(arg(&args, "--in").expect("--in")).unwrap();
-            let mut trace = String::new();
-            let mut obs = String::new();
-            let mut monitor = String::new();
-            conc::run_cases(1, 0, "replay", conc::parse_trace(&text), &mut trace, &mut obs, &mut monitor);
-            fs::write(arg(&args, "--trace").expect("--trace"), trace).unwrap();
-            fs::write(arg(&args, "--obs").expect("--obs"), obs).unwrap();
-            if let Some(m) = arg(&args, "--monitor") {
-                fs::write(m, monitor).unwrap();
-            }
+            let tp = arg(&args, "--trace").expect("--trace").to_string();
+            let op = arg(&args, "--obs").expect("--obs").to_string();
+            let mp = arg(&args, "--monitor").map(|s| s.to_string());
+            let (tp2, op2, mp2) = (tp.clone(), op.clone(), mp.clone());
+            watch::deadman(std::time::Duration::from_secs(DEADMAN_REPLAY_SECS), tp2, op2, mp2, move || {
+                let mut trace = String::new();
+                let mut obs = String::new();
+                let mut monitor = String::new();
+                conc::run_cases(1, 0, "replay", conc::parse_trace(&text), &mut trace, &mut obs, &mut monitor);
+                fs::write(&tp, trace).unwrap();
+                fs::write(&op, obs).unwrap();
+                if let Some(m) = mp {
+                    fs::write(m, monitor).unwrap();
+                }
+            });
         }
         "probe-listener" => {
             // connect and reset immediately, many times; does the listener survive?
